@@ -13,7 +13,7 @@ for d in sorted(os.listdir("/verif/seeded")):
     if not os.path.isdir(p) or (only and d not in only):
         continue
     meta = json.load(open(f"{p}/meta.json"))
-    prop = meta["property"]
+    prop = meta.get("property_checked", meta["property"])     # (a few changes only touch what another property's check sees)
     a = sh(f"git apply {p}/patch.diff", cwd="/repo")
     if a.returncode != 0:
         res[d] = {"applies": False, "why": a.stderr[-200:]}
